@@ -48,12 +48,12 @@ Definition select_typed_float_opcode (op : binop) : opcode :=
   | OpLt => O_LtFF | OpLe => O_LeFF | OpGt => O_GtFF | OpGe => O_GeFF | OpEq => O_EqFF | OpNe => O_NeFF
   | o => select_generic_opcode o
   end.
-(* NB: the five shift/bitwise operators get the UNGUARDED ...II opcodes *)
+(* there are no guarded shift/bitwise opcodes: the generic ones (which check both tags) are used *)
 Definition select_guarded_int_opcode (op : binop) : opcode :=
   match op with
   | OpAdd => O_AddIIG | OpSub => O_SubIIG | OpMul => O_MulIIG | OpDiv => O_DivIIG | OpMod => O_ModIIG
   | OpLt => O_LtIIG | OpLe => O_LeIIG | OpGt => O_GtIIG | OpGe => O_GeIIG | OpEq => O_EqIIG | OpNe => O_NeIIG
-  | OpShl => O_ShlII | OpShr => O_ShrII | OpBitAnd => O_AndII | OpBitOr => O_OrII | OpBitXor => O_XorII
+  | o => select_generic_opcode o
   end.
 Definition select_guarded_float_opcode (op : binop) : opcode :=
   match op with
